@@ -51,8 +51,10 @@ def make_case(index, rng, tier):
     real = rng.choice([None, None, None, "sync", "gthread", "gevent", "eventlet"])
     exec_fail = rng.choice([None] * 5 + ["ENOENT", "EACCES"])      # the new binary cannot be executed (first USR2 only)
     new_boot_fail = rng.choice([None] * 6 + ["exit3", "exit4"]) if real is None and exec_fail is None else None
+    # the disk is full (or /run read-only) for a moment, at the n-th file-system operation after the first USR2
+    fs_fault = rng.choice([None] * 7 + [{"nth": rng.randrange(1, 12), "errno": rng.choice(["ENOSPC", "EACCES"])}]) if exec_fail is None else None
     return {"events": evs, "clients": clients, "unix": rng.randrange(2) == 0, "workers": rng.randrange(1, 3), "real": real, "exec_fail": exec_fail,
-            "new_boot_fail": new_boot_fail,
+            "new_boot_fail": new_boot_fail, "fs_fault": fs_fault,
             "graceful_timeout": rng.choice([1, 2]), "daemon": rng.randrange(3) == 0, "pidfile": rng.randrange(4) != 0,
             "buggify": {"pyticks": rng.randrange(3) == 0, "fork_child_first": rng.randrange(2) == 0, "spurious_select": rng.randrange(3) == 0,
                         "random_spawn_delay": rng.randrange(2) == 0}}
@@ -96,6 +98,21 @@ def run(case, choices):
         sim.sys_fail = sys_fail
     m0 = w.start_master()
     masters = [m0]               # process objects of every master generation, in creation order
+    if case.get("fs_fault"):
+        import errno as _errno2
+        ff = case["fs_fault"]
+        fcnt = {"n": 0}
+
+        def fs_fail(op, path):
+            if len(masters) < 2 or not str(path).startswith("/run/g.pid"):
+                return None
+            fcnt["n"] += 1
+            if fcnt["n"] == ff["nth"]:
+                sim.probe("pid_file_operation_failed_during_upgrade")
+                state["fs_fault_at"] = sim.now
+                return getattr(_errno2, ff["errno"])
+            return None
+        sim.fs_fail = fs_fail
     if case.get("new_boot_fail"):
         # the release the server is upgraded to cannot boot its workers: the new master halts (exit status 3 / 4) - a failed upgrade, after
         # which the old master must simply carry on
@@ -243,6 +260,8 @@ def run(case, choices):
         if sim.crash:
             raise master.HarnessError(sim.crash)
         for name, tb in sim.escaped:
+            if name.startswith("master") and state.get("fs_fault_at") is not None and "self.start()" in tb:
+                continue          # a master that cannot write its pid file at start-up refuses to start (with a traceback): a failed upgrade
             if name.startswith("master"):
                 res.violate("C14:master-crashed", "an exception escaped %s: %s; %s" % (name, tb[-500:], ctx()))
         # a master only ever leaves because it was told to (TERM / QUIT / KILL): a reload, an upgrade or a worker event must not end it
@@ -252,6 +271,8 @@ def run(case, choices):
             asked = [k for (t_, k) in state.get("sent", {}).get(mp.pid, []) if k.startswith(("term", "quit", "kill"))]
             if mp is not m0 and case.get("new_boot_fail"):
                 continue          # it halted because its workers cannot boot (C03's clause); what matters here is that the OLD one goes on
+            if mp is not m0 and state.get("fs_fault_at") is not None and not any(pp == mp.pid for _t, pp, _c, _k in w.forks):
+                continue          # a new master that cannot write its pid file refuses to start: a failed upgrade, the old one goes on
             if not asked:
                 hist = [k for (t_, k) in state.get("sent", {}).get(mp.pid, [])]
                 res.violate("C14:master-exited-unasked:%s" % ("new" if mp is not m0 else "old"),
@@ -265,6 +286,9 @@ def run(case, choices):
                         % (state["node_missing"][0][0], state["node_missing"][0][1], ctx()))
         # pid files
         for (t, rm, node, p1, p2) in samples:
+            if state.get("fs_fault_at") is not None and t >= state["fs_fault_at"] - 1e-9:
+                break             # after a failed pid-file operation the files may be stale or missing (an operation may fail; what may not
+                                  # happen is that a serving master dies of it, which is judged above)
             news = [x for x in masters[1:] if x.pid in rm]
             if len(news) != 1 or not case.get("pidfile", True):
                 continue
@@ -353,7 +377,7 @@ def run(case, choices):
             # the last master to go must clean up - unless the previous one left less than 2.5 s earlier (the survivor
             # may legitimately not have noticed yet that it is alone: promotion happens once per loop period)
             settled = len(ex) < 2 or ex[-1] - ex[-2] > 2.5
-            if not killed and settled and not stale_reexec:
+            if not killed and settled and not stale_reexec and state.get("fs_fault_at") is None:
                 if case["unix"] and "/run/g.sock" in sim.fs:
                     res.violate("C14:unix-socket-left", "every master has exited but the unix socket file remains; %s" % ctx())
                 for pth in ("/run/g.pid", "/run/g.pid.2"):
